@@ -15,6 +15,10 @@ import OFV.Proofs.C19MolId
 import OFV.Proofs.C19MolOracle
 import OFV.Proofs.C19Phys
 import OFV.Proofs.C19Exchange
+import OFV.Proofs.C19OneNormId
+import OFV.Proofs.C19Exact0
+import OFV.Proofs.C19ThcPos
+import OFV.Proofs.C19OracleSplit
 import OFV.Proofs.C19Mono
 
 namespace OFV.C19
@@ -185,6 +189,17 @@ theorem cost_estimator_select_spec (cands : List (Nat × Nat)) (feasible : List 
     selectOk cands feasible (Model.C19.selectBest cands feasible) = true :=
   OFV.Proofs.C19Ph.selectBest_ok cands feasible
 
+/-- `compute_cost` (THC) with an even number of spin orbitals, at least one THC factor (`M ≥ 1`) and `beta ≥ 2`: the
+per-step Toffoli cost is positive and independent of `lam`, `dE`, hence the total is monotone in `lam` and `1/dE` —
+`thc_total_monotone` without its side condition on the sign of the per-step cost. -/
+theorem thc_total_monotone_pos (n chi beta M br : Nat) (lam lam' dE dE' : Rat) (c c' : Costs) (hn : n % 2 = 0)
+    (hM : 1 ≤ M) (hb : 2 ≤ beta)
+    (h : thcCost n lam dE chi beta M br = some c) (h' : thcCost n lam' dE' chi beta M br = some c')
+    (hl : lam ≤ lam') (hd : dE' ≤ dE) : 0 < c.step ∧ c.step = c'.step ∧ c.total ≤ c'.total := by
+  have hp := OFV.Proofs.C19M.thc_step_pos n chi beta M br lam dE c hn hM hb h
+  obtain ⟨h1, h2⟩ := thc_total_monotone n chi beta M br lam lam' dE dE' c c' hn h h' hl hd
+  exact ⟨hp, h1, h2 (le_of_lt hp)⟩
+
 /-! ### `lambda_norm` and the Jordan-Wigner image -/
 
 /-- **`lambda_norm` is the 1-norm of the non-identity Jordan-Wigner coefficients** — every size `n`, every real
@@ -312,6 +327,21 @@ theorem one_norm_exchange_pair_partial (a c : Nat) (h : a + 1 < c) (K : Rat) :
     ∧ jwOneNorm (c + 2) (OFV.C19P.exchangeFermi a c K) false = some (Spec.C19.rabs K) :=
   ⟨fun m u => OFV.C19P.exchange_pair_den a c h K m u, OFV.C19P.exchange_pair_norm a c h K⟩
 
+/-- **`get_one_norm_int` (identity included) is the value of the Spec oracle**, same class as
+`one_norm_spec_partial` (every `n`, real symmetric `h`, Coulomb-type `g`): the Model of `get_one_norm_int` equals
+`jwOneNorm (2n) (molOp n const h g) true`, the 1-norm of ALL coefficients of the Pauli decomposition.  The oracle with and
+without the identity differ exactly by `|Tr H| / 4^n = |htilde|` (`one_norm_identity_coefficient`); all traces the oracle
+inspects are real.  Missing for the full statement: the same classes of integrals as for `one_norm_spec_partial`. -/
+theorem one_norm_int_spec_partial (tol : Rat) (n : Nat) (const : Rat) (h : List (List Rat))
+    (g : List (List (List (List Rat)))) (hn : h.length = n)
+    (hsupp : ∀ p q r s, ¬ (s = p ∧ r = q) → m4 g p q r s = 0)
+    (symH : ∀ p q, p < n → q < n → m2 h q p = m2 h p q)
+    (symJ : ∀ p q, p < n → q < n → m4 g q p p q = m4 g p q q p)
+    (hok : Model.C04.jwDCHOk tol (2 * n) (⟨const, 0⟩ : GQ) (flatReal (2 * n) (spinOne n h))
+      (flatReal (2 * n) (spinCoulomb n g)) = true) :
+    jwOneNorm (2 * n) (molOp n const h g) true = some (oneNorm const h g) :=
+  OFV.C19Jw.oneNorm_eq_oracle tol n const h g hn hsupp symH symJ hok
+
 /-- `lambda_norm_spec` in the form the driver evaluates (`c19.spec.dch_pauli_norm`): the matrices are flattened by
 `Spec.C19.flatReal`, the threshold is the extracted `EQ_TOLERANCE`; the driver reports `jwDCHOk` and the 1-norm
 `pauliListNorm` of the Model's Jordan-Wigner image for every generated real symmetric Hamiltonian, and the harness
@@ -326,5 +356,48 @@ theorem lambda_norm_spec_flat (const : GQ) (T V : List (List Rat))
   exact (lambda_norm_spec Generated.eqTolerance T.length const _ _ T V rfl
     (fun p q hp hq => OFV.C19Jw.get1_flatReal T.length T p q hp hq) (fun p q hp hq => OFV.C19Jw.get1_flatReal T.length V p q hp hq)
     symT symV hok).1
+
+/-! ### the oracle statements without the exact-run hypothesis
+
+The statements below do not mention the deletion threshold of `+=`: the Model image of the Jordan-Wigner transform is
+only the witness of a Pauli form in the proofs, and with threshold `0` every `+=` is exact (`jwDCHOk 0 … = true`), so
+the hypothesis `jwDCHOk` of `lambda_norm_oracle`, `one_norm_spec_partial`, `one_norm_int_spec_partial` disappears. -/
+
+/-- **`lambda_norm` = Spec oracle, ALL real symmetric inputs, no side condition**: for every list of rows `T`, `V`
+with `T[q][p] = T[p][q]`, `V[q][p] = V[p][q]` (indices below `len T`; rows of any length, missing entries read as 0) and
+every constant, the Model of `lambda_norm` is the 1-norm of the non-identity coefficients of the Pauli decomposition of
+`const + Σ T_pq a†_p a_q + Σ V_pq n_p n_q`, as computed by the Spec oracle from the ladder action on all Fock states. -/
+theorem lambda_norm_oracle_all (const : GQ) (T V : List (List Rat))
+    (symT : ∀ p q, p < T.length → q < T.length → mat T q p = mat T p q)
+    (symV : ∀ p q, p < T.length → q < T.length → mat V q p = mat V p q) :
+    jwOneNorm T.length (Spec.C04.dchOp T.length const (flatReal T.length T) (flatReal T.length V)) false
+      = some (lambdaNorm T V) :=
+  lambda_norm_oracle 0 T.length const _ _ T V rfl
+    (fun p q hp hq => OFV.C19Jw.get1_flatReal T.length T p q hp hq)
+    (fun p q hp hq => OFV.C19Jw.get1_flatReal T.length V p q hp hq) symT symV
+    (OFV.C19Jw.jwDCHOk_zero _ _ _ _)
+
+/-- **`get_one_norm_int_woconst` and `get_one_norm_int` = Spec oracle without / with the identity, no side
+condition**, every number of orbitals, every real symmetric `h`, every Coulomb-type `g` (see `one_norm_spec_partial`
+for the class and for what is missing towards general integrals). -/
+theorem one_norm_spec_partial_all (const : Rat) (h : List (List Rat)) (g : List (List (List (List Rat))))
+    (hsupp : ∀ p q r s, ¬ (s = p ∧ r = q) → m4 g p q r s = 0)
+    (symH : ∀ p q, p < h.length → q < h.length → m2 h q p = m2 h p q)
+    (symJ : ∀ p q, p < h.length → q < h.length → m4 g q p p q = m4 g p q q p) :
+    jwOneNorm (2 * h.length) (molOp h.length const h g) false = some (oneNormWoConst h g)
+    ∧ jwOneNorm (2 * h.length) (molOp h.length const h g) true = some (oneNorm const h g) :=
+  ⟨one_norm_spec_partial 0 h.length const h g rfl hsupp symH symJ (OFV.C19Jw.jwDCHOk_zero _ _ _ _),
+   one_norm_int_spec_partial 0 h.length const h g rfl hsupp symH symJ (OFV.C19Jw.jwDCHOk_zero _ _ _ _)⟩
+
+/-- **`get_one_norm_int` reduces to `get_one_norm_int_woconst`, for ALL integrals** (no symmetry, every number of
+orbitals): whenever the Spec oracle without the identity returns the Model value of `get_one_norm_int_woconst` for the
+molecular Hamiltonian, the oracle with the identity returns the Model value of `get_one_norm_int`.  (If the oracle
+without the identity returns a value at all, every trace it inspected was real; the identity trace is `4^n · htilde`.)
+So the only open part of `one_norm_spec` is the non-identity equality. -/
+theorem one_norm_int_of_woconst (const : Rat) (h : List (List Rat)) (g : List (List (List (List Rat))))
+    (hw : jwOneNorm (2 * h.length) (molOp h.length const h g) false = some (oneNormWoConst h g)) :
+    jwOneNorm (2 * h.length) (molOp h.length const h g) true = some (oneNorm const h g) := by
+  rw [OFV.C19Jw.oracle_split h.length const h g _ hw, OFV.C19P.oneNorm_split, add_comm]
+  rfl
 
 end OFV.C19
